@@ -33,6 +33,31 @@ theorem blocks_prefix {κ : Type} (start : Time) (pre : List (Kw κ)) (t : Kw κ
   have := blocks_prefix_gen (pre ++ [t]) tail tail' h h'
   simpa [nsteps_append, nsteps] using this
 
+/-- Restarted runs (report_step > 0, optionally SKIPREST), the skipped part: as long as the
+restart time has not been reached (`rst_skip` still true after reading `a`), the block list is
+the initial one (placeholders 0 .. report_step-1) except that block 0 has collected exactly the
+white-listed keywords of `a`, in order; every other keyword and every time record of `a` is
+dropped. -/
+theorem blocks_restart_skipped {κ : Type} (cfg : RCfg) (wl : κ → Bool) (start : Time) (a : List (Kw κ)) (s1 : RSt κ)
+    (h : runEvsR cfg wl (rinit cfg start) (flatten a) = .ok s1) (hs : s1.skip = true) :
+    s1.all = addFirst (rinit cfg start : RSt κ).all (whitelisted wl (flatten a)) :=
+  runEvsR_skip_phase h hs
+
+/-- Restarted runs, after the skipped part: once the restart time has been reached by the prefix
+`a` (`rst_skip` false), every block closed so far — the placeholders, block 0 with its collected
+keywords, and the blocks of the report steps since — is the same whatever follows. -/
+theorem blocks_prefix_restart {κ : Type} (cfg : RCfg) (wl : κ → Bool) (start : Time) (a b b' : List (Kw κ))
+    (bs bs' : List (Block κ)) (s1 : RSt κ)
+    (ha : runEvsR cfg wl (rinit cfg start) (flatten a) = .ok s1) (hs : s1.skip = false)
+    (h : rblocks cfg wl start (a ++ b) = .ok bs) (h' : rblocks cfg wl start (a ++ b') = .ok bs') :
+    bs.take s1.closed.length = bs'.take s1.closed.length := by
+  rw [rblocks_split ha hs h, rblocks_split ha hs h']
+
+/-- Without a restart the restarted-run partition is the plain one. -/
+theorem blocks_norestart {κ : Type} (wl : κ → Bool) (start t : Time) (kws : List (Kw κ)) :
+    rblocks { rstep := 0, rtime := t, skiprest := false } wl start kws = blocks start kws :=
+  rblocks_norestart wl start t kws
+
 /-- … and the number of blocks is the number of report steps plus one. -/
 theorem blocks_count {κ : Type} (start : Time) (kws : List (Kw κ)) (bs : List (Block κ))
     (h : blocks start kws = .ok bs) : bs.length = nsteps kws + 1 :=
@@ -148,6 +173,27 @@ example : ((schedule k0 (d0.seconds * 1000) (pre0 ++ t0 :: tailA)).toOption.map 
 -- the two tails really produce different later states
 example : ((schedule k0 (d0.seconds * 1000) (pre0 ++ t0 :: tailA)).toOption.bind (·[2]?)).map (fun s => s.p.actions.length) = some 1 ∧
           ((schedule k0 (d0.seconds * 1000) (pre0 ++ t0 :: tailB)).toOption.bind (·[2]?)).map (fun s => (lookup s.p.groups "G2").map (·.parent)) = some (some "FIELD") := by
+  decide +kernel
+
+/-! restart with SKIPREST at report step 2 (1 FEB 2015): the skipped part contributes RPTRST and
+TUNING to block 0, its WELSPECS and its DATES record are dropped -/
+def cfgR : RCfg := { rstep := 2, rtime := ({ y := 2015, m := 2, d := 1 } : Date).seconds * 1000, skiprest := true }
+def wlR : String → Bool := fun k => ["VFPPROD", "VFPINJ", "RPTSCHED", "RPTRST", "TUNING", "MESSAGES"].contains k
+def kwsR : List (Kw String) :=
+  [.other "RPTRST", .other "WELSPECS", .dates [{ y := 2015, m := 1, d := 15 }], .other "TUNING", .other "WCONPROD",
+   .dates [{ y := 2015, m := 2, d := 1 }], .other "WELOPEN", .dates [{ y := 2015, m := 3, d := 1 }]]
+
+example : ((rblocks cfgR wlR (d0.seconds * 1000) kwsR).toOption.map fun bs => bs.map fun b => (b.ttype, b.kws)) =
+    some [(.start, ["RPTRST", "TUNING"]), (.restart, []), (.dates, ["WELOPEN"]), (.dates, [])] := by decide +kernel
+example : ((runEvsR cfgR wlR (rinit cfgR (d0.seconds * 1000)) (flatten (kwsR.take 5))).toOption.map (·.skip)) = some true := by
+  decide +kernel
+example : ((runEvsR cfgR wlR (rinit cfgR (d0.seconds * 1000)) (flatten (kwsR.take 6))).toOption.map fun s => (s.skip, s.closed.length)) =
+    some (false, 2) := by decide +kernel
+-- stepping over the restart time is the SKIPREST error
+example : ((rblocks cfgR wlR (d0.seconds * 1000) [.other "RPTRST", .dates [{ y := 2015, m := 2, d := 2 }]]).toOption.map List.length,
+           match rblocks cfgR wlR (d0.seconds * 1000) [.other "RPTRST", .dates [{ y := 2015, m := 2, d := 2 }]] with
+           | .error e => some e
+           | .ok _ => none) = (none, some DeckErr.skiprestMissed) := by
   decide +kernel
 
 /-- a state whose current snapshot holds object 0; after `create_next` that object is shared
